@@ -270,12 +270,16 @@ Graph::NodeId GlobalGraph::createNodeOnEdge(Graph::EdgeId edge)
   // origin must be an existing edge
   edgeMustExist_(edge, "");
 
-  Graph::NodeId newNode = createNode();
-
   // determining the nodes on the border of the edge
   pair<GlobalGraph::Node, GlobalGraph::Node> nodes = edgeStructure_[edge];
   GlobalGraph::Node nodeA = nodes.first;
   GlobalGraph::Node nodeB = nodes.second;
+
+  // a loop of an undirected graph cannot be split: both halves would relate the same two nodes
+  if (!directed_ && nodeA == nodeB)
+    throw Exception("GlobalGraph::createNodeOnEdge : cannot split the loop " + TextTools::toString(edge) + " of an undirected graph");
+
+  Graph::NodeId newNode = createNode();
 
   unlink(nodeA, nodeB);
   link(nodeA, newNode);
